@@ -101,12 +101,16 @@ EncClauses(c, dv) ==
       <<"C10", "JsonSameUpd", SameW(Pairs(c.enc.json), pu, c, dv)>>,
       <<"C10", "JsonIetfSameUpd", SameW(Pairs(c.enc.ietf), pu, c, dv)>>,
       <<"C10", "XmlSameUpd", \A x \in X : SameW(XmlUpd(x), NoAddrKeys(pu, x), c, dv)>>,
-      <<"C10", "XmlSameDel", \A x \in X : XmlDel(x) = pd>>,
+      \* deletes are compared by what they remove from the device: the delete of a whole list (proto) and the deletes of
+      \* its entries (XML: a list has no element of its own) denote the same change when they cover the same device content
+      <<"C10", "XmlSameDel", \A x \in X : XmlDel(x) \cap DOMAIN dv = pd \cap DOMAIN dv>>,
       <<"C10", "XmlNamespaces", \A x \in X : x.opts[1] => x.nsok>>,
       <<"C10", "XmlKeysFirst", \A x \in X : x.keysfirst>>,
       <<"C10", "XmlAllNamed", \A x \in X : x.allnamed /\ Len(x.unknownelems) = 0>>,
       <<"C10", "XmlDeleteOperation", \A x \in X : XmlOpsOK(x)>>,
-      <<"C10", "EmptyAgree", \A x \in X : x.empty = (pu = {} /\ pd = {})>>,
+      \* (a document is empty when the change writes nothing but restated presence containers and removes nothing the device holds)
+      <<"C10", "EmptyAgree", \A x \in X : x.empty => ((pu \ Restated(pu, c, dv)) = {} /\ pd \cap DOMAIN dv = {})>>,
+      <<"C10", "EmptyAgreeConverse", \A x \in X : (pu = {} /\ pd = {}) => x.empty>>,
       <<"C10", "FullViewsAgree", /\ Same(Pairs(c.enc.protoall), Pairs(c.enc.jsonall))
                                  /\ Same(Pairs(c.enc.jsonall), Pairs(c.enc.ietfall))
                                  /\ Same(Pairs(c.enc.xmlall), Pairs(c.enc.jsonall))>>}
